@@ -58,6 +58,32 @@ enum ConnType {
     Tls(TlsStream<TcpStream>),
     #[cfg(unix)]
     Unix(UnixStream),
+    #[cfg(ldap3_verif)]
+    Verif(Box<dyn VerifIo>),
+}
+
+/// Scripted transport used by the verification harness.
+#[cfg(ldap3_verif)]
+pub trait VerifIo: AsyncRead + AsyncWrite + Unpin + Send + std::fmt::Debug {}
+
+#[cfg(ldap3_verif)]
+impl<T: AsyncRead + AsyncWrite + Unpin + Send + std::fmt::Debug> VerifIo for T {}
+
+#[cfg(ldap3_verif)]
+thread_local! {
+    static VERIF_TRACE: std::cell::RefCell<Vec<String>> = std::cell::RefCell::new(Vec::new());
+}
+
+/// Append an event to the per-thread verification trace.
+#[cfg(ldap3_verif)]
+pub fn verif_trace(ev: String) {
+    VERIF_TRACE.with(|t| t.borrow_mut().push(ev));
+}
+
+/// Take the per-thread verification trace.
+#[cfg(ldap3_verif)]
+pub fn verif_take_trace() -> Vec<String> {
+    VERIF_TRACE.with(|t| std::mem::take(&mut *t.borrow_mut()))
 }
 
 #[cfg(feature = "tls-rustls")]
@@ -157,6 +183,8 @@ impl AsyncRead for ConnType {
             ConnType::Tls(tls) => Pin::new(tls).poll_read(cx, buf),
             #[cfg(unix)]
             ConnType::Unix(us) => Pin::new(us).poll_read(cx, buf),
+            #[cfg(ldap3_verif)]
+            ConnType::Verif(io) => Pin::new(io).poll_read(cx, buf),
         }
     }
 }
@@ -169,6 +197,8 @@ impl AsyncWrite for ConnType {
             ConnType::Tls(tls) => Pin::new(tls).poll_write(cx, buf),
             #[cfg(unix)]
             ConnType::Unix(us) => Pin::new(us).poll_write(cx, buf),
+            #[cfg(ldap3_verif)]
+            ConnType::Verif(io) => Pin::new(io).poll_write(cx, buf),
         }
     }
 
@@ -179,6 +209,8 @@ impl AsyncWrite for ConnType {
             ConnType::Tls(tls) => Pin::new(tls).poll_flush(cx),
             #[cfg(unix)]
             ConnType::Unix(us) => Pin::new(us).poll_flush(cx),
+            #[cfg(ldap3_verif)]
+            ConnType::Verif(io) => Pin::new(io).poll_flush(cx),
         }
     }
 
@@ -189,6 +221,8 @@ impl AsyncWrite for ConnType {
             ConnType::Tls(tls) => Pin::new(tls).poll_shutdown(cx),
             #[cfg(unix)]
             ConnType::Unix(us) => Pin::new(us).poll_shutdown(cx),
+            #[cfg(ldap3_verif)]
+            ConnType::Verif(io) => Pin::new(io).poll_shutdown(cx),
         }
     }
 }
@@ -661,6 +695,21 @@ impl LdapConnAsync {
         }
     }
 
+    /// Create a connection over a scripted transport.
+    #[cfg(ldap3_verif)]
+    pub fn verif_pair(io: Box<dyn VerifIo>) -> (Self, Ldap) {
+        Self::conn_pair(ConnType::Verif(io))
+    }
+
+    #[cfg(ldap3_verif)]
+    fn verif_maps(&self) -> String {
+        let mut r: Vec<i32> = self.resultmap.keys().copied().collect();
+        let mut s: Vec<i32> = self.searchmap.keys().copied().collect();
+        r.sort_unstable();
+        s.sort_unstable();
+        format!("r={:?} s={:?}", r, s)
+    }
+
     fn conn_pair(ctype: ConnType) -> (Self, Ldap) {
         #[cfg(feature = "gssapi")]
         let client_ctx = Arc::new(Mutex::new(None));
@@ -759,6 +808,8 @@ impl LdapConnAsync {
             tokio::select! {
                 req_id = self.id_scrub_rx.recv() => {
                     if let Some(req_id) = req_id {
+                        #[cfg(ldap3_verif)]
+                        verif_trace(format!("drv scrub {}", req_id));
                         self.resultmap.remove(&req_id);
                         self.searchmap.remove(&req_id);
                         let mut msgmap = self.msgmap.lock().expect("msgmap mutex (id_scrub)");
@@ -767,11 +818,20 @@ impl LdapConnAsync {
                 },
                 op_tuple = self.rx.recv() => {
                     if let Some((id, op, tag, controls, tx)) = op_tuple {
+                        #[cfg(ldap3_verif)]
+                        verif_trace(format!("drv op {} {}", id, match op {
+                            LdapOp::Single => String::from("single"),
+                            LdapOp::Search(_) => String::from("search"),
+                            LdapOp::Abandon(m) => format!("abandon:{}", m),
+                            LdapOp::Unbind => String::from("unbind"),
+                        }));
                         if let LdapOp::Search(ref search_tx) = op {
                             self.searchmap.insert(id, search_tx.clone());
                         }
                         if let Err(e) = self.stream.send((id, tag, controls)).await {
                             warn!("socket send error: {}", e);
+                            #[cfg(ldap3_verif)]
+                            verif_trace(String::from("drv end senderr"));
                             return Err(LdapError::from(e));
                         } else {
                             match op {
@@ -801,6 +861,8 @@ impl LdapConnAsync {
                             }
                         }
                     } else {
+                        #[cfg(ldap3_verif)]
+                        verif_trace(String::from("drv end opclosed"));
                         break;
                     }
                 },
@@ -824,6 +886,12 @@ impl LdapConnAsync {
                     }
                 },
                 resp = self.stream.next() => {
+                    #[cfg(ldap3_verif)]
+                    match resp {
+                        None => verif_trace(String::from("drv end eof")),
+                        Some(Err(_)) => verif_trace(String::from("drv end recverr")),
+                        Some(Ok((id, _))) => verif_trace(format!("drv resp {}", id)),
+                    }
                     let (id, (tag, controls)) = match resp {
                         None => break,
                         Some(Err(e)) => {
@@ -844,6 +912,8 @@ impl LdapConnAsync {
                                 Some(res) => (SearchItem::Done(res.0), true),
                                 None => {
                                     warn!("malformed search result, op={}", id);
+                                    #[cfg(ldap3_verif)]
+                                    verif_trace(String::from("drv end badresp"));
                                     return Err(LdapError::from(io::Error::new(
                                         io::ErrorKind::Other,
                                         "decoding error",
@@ -853,6 +923,8 @@ impl LdapConnAsync {
                             19 => (SearchItem::Referral(protoop), false),
                             _ => {
                                 warn!("unrecognized op id: {}, op={}", protoop.id, id);
+                                #[cfg(ldap3_verif)]
+                                verif_trace(String::from("drv end badresp"));
                                 return Err(LdapError::from(io::Error::new(
                                     io::ErrorKind::Other,
                                     "decoding error",
@@ -879,6 +951,8 @@ impl LdapConnAsync {
                     }
                 },
             };
+            #[cfg(ldap3_verif)]
+            verif_trace(format!("drv maps {}", self.verif_maps()));
             if let LoopMode::SingleOp = mode {
                 break;
             }
